@@ -19,7 +19,7 @@
 #                   todo_noflag (flagchan[c] never set: message not scheduled on its channel)
 #   not a VIOLATION but exit 2: a mutant that removes a callee named in an unwind key (e.g. str_rchr -> str_chr in senderadd) is
 #   reported as "unwind keys match no loop" by the driver.
-from vlib import load_plan, Obl, Prog
+from vlib import load_plan, Obl, Prog, borrow
 
 
 def lemma_grid(tier):
@@ -193,4 +193,6 @@ def obligations(tier):
             claim="constmap_init+constmap == case-insensitive exact-match linear search over the entries "
                   "(flagcolon: key before the first ':', value pointer after it, entries without ':' ignored); a lookup leaves table and image unchanged",
             expect_witnesses=lemma_witnesses),
-    ] + [load_plan("C16").signals_obligation(tier)]   # after a HUP newly listed domains apply: the main loop never forgets a HUP (flag cleared before the reading starts)
+    ] + [load_plan("C16").signals_obligation(tier)] \
+      + borrow("C08", ["control_readfile_ref", "control_readline_ref", "control_readint_ref"], tier)   # (h2) getcontrols()/regetcontrols() read locals, virtualdomains, percenthack through control_readfile, envnoathost through control_rldef: the tables are what the FILES say
+    # load_plan("C16"): after a HUP newly listed domains apply: the main loop never forgets a HUP (flag cleared before the reading starts)
